@@ -2,6 +2,8 @@ import MpVerif.C20.ModelGraph
 import MpVerif.C20.LemmasGraph
 import MpVerif.C20.Lemmas
 import MpVerif.C20.LemmasExport
+import MpVerif.C20.LemmasEscape
+import MpVerif.C20.LemmasGen
 /-!
 # C20 — The exported reformulation graph is well-formed and complete
 
@@ -323,5 +325,103 @@ theorem C20_counterexample_extend_after_finish :
     let s := xrun {} [.add .copy (⟨cl!"A", 0, 1⟩, ⟨cl!"B", 0, 1⟩), .finish,
                       .add .copy (⟨cl!"A", 1, 2⟩, ⟨cl!"B", 1, 2⟩)]
     s.late = true ∧ s.out.map (fun x => x.src.end_) = [1] ∧ (extentOf s .copy 0).1.end_ = 2 := by decide
+
+/-! ## (d) `EscapeJSON` on byte strings (after /repo b8ae903), and the definitions generated from the source
+
+`MpVerif/Gen/C20Json.lean` is regenerated on every run by `translators/gen_c20json.py` from clang's typed AST of
+`MiniJSONWriter<fmt::MemoryWriter>`: the state/comma/nesting methods and one iteration of the `EscapeJSON` loop.
+The `C20_gen_*` theorems state that the hand model equals the generated definitions, so the theorems of (a) and the
+validity theorem below speak about the code as it is now; a change of the C++ breaks these proofs. -/
+
+open MpVerif.Gen.C20Json in
+/-- **Validity at full strength**: for EVERY byte string `s` the escaped text is well-formed UTF-8 (RFC 3629,
+    `WfUtf8`) and a valid JSON string body (RFC 8259 §7 on the UTF-8 bytes, `BodyOk`): no unescaped quote,
+    backslash or control character, only legal escapes. -/
+theorem C20_escape_valid (s : List Nat) (h : Bytes s) : WfUtf8 (escapeB s) ∧ BodyOk (escapeB s) :=
+  valid_escapeBF s.length s h
+
+/-- the same for `EscapeJSON` as assembled from the generated loop body -/
+theorem C20_gen_escape_valid (s : List Nat) (h : Bytes s) : WfUtf8 (genEscape s) ∧ BodyOk (genEscape s) := by
+  rw [genEscape_eq]; exact C20_escape_valid s h
+
+theorem C20_gen_escape (s : List Nat) : genEscape s = escapeB s := genEscape_eq s
+
+/-- one iteration of the loop, generated from the source, equals the hand model's step -/
+theorem C20_gen_escBody (pre : List Nat) (c : Nat) (t : List Nat) :
+    (MpVerif.Gen.C20Json.escBody (pre ++ c :: t) pre.length).1 = (escStep c t).1 ∧
+    (MpVerif.Gen.C20Json.escBody (pre ++ c :: t) pre.length).2.1 = pre.length + (escStep c t).2 :=
+  gen_escBody pre c t
+
+theorem C20_gen_EnsureArray (nd : Node) : MpVerif.Gen.C20Json.EnsureArray nd = ensureArr nd := gen_EnsureArray nd
+theorem C20_gen_EnsureDictionary (nd : Node) : MpVerif.Gen.C20Json.EnsureDictionary nd = ensureDict nd := gen_EnsureDictionary nd
+theorem C20_gen_MakeScalarIfUnset (nd : Node) : MpVerif.Gen.C20Json.MakeScalarIfUnset nd = ([], makeScalar nd) :=
+  gen_MakeScalarIfUnset nd
+theorem C20_gen_InsertElementSeparator (nd : Node) : MpVerif.Gen.C20Json.InsertElementSeparator nd = (sep nd.n, nd) :=
+  gen_InsertElementSeparator nd
+theorem C20_gen_Close (nd : Node) : MpVerif.Gen.C20Json.Close nd = (closeText nd.kind, { nd with kind := .closed }) :=
+  gen_Close nd
+/-- under NDEBUG the two assertion-only methods do nothing -/
+theorem C20_gen_EnsureUnset_EnsureCanWrite (nd : Node) :
+    MpVerif.Gen.C20Json.EnsureUnset nd = ([], nd) ∧ MpVerif.Gen.C20Json.EnsureCanWrite nd = ([], nd) :=
+  ⟨gen_EnsureUnset nd, gen_EnsureCanWrite nd⟩
+/-- `operator[]`, `operator++` and `Close` as generated are exactly the `key`, `elem`, `close` arms of the op machine -/
+theorem C20_gen_step_key (out : Str) (nd : Node) (rest : List Node) (k : Str) :
+    step ⟨out, nd :: rest⟩ (.key k)
+      = ⟨out ++ (MpVerif.Gen.C20Json.opIndex k nd).1, ⟨.unset, 0⟩ :: (MpVerif.Gen.C20Json.opIndex k nd).2 :: rest⟩ :=
+  gen_step_key out nd rest k
+theorem C20_gen_step_elem (out : Str) (nd : Node) (rest : List Node) :
+    step ⟨out, nd :: rest⟩ .elem
+      = ⟨out ++ (MpVerif.Gen.C20Json.opIncr nd).1, ⟨.unset, 0⟩ :: (MpVerif.Gen.C20Json.opIncr nd).2 :: rest⟩ :=
+  gen_step_elem out nd rest
+theorem C20_gen_step_close (out : Str) (nd : Node) (rest : List Node) :
+    step ⟨out, nd :: rest⟩ .close = ⟨out ++ (MpVerif.Gen.C20Json.Close nd).1, rest⟩ :=
+  gen_step_close out nd rest
+
+/-! instances: a Latin-1 byte, a well-formed two-byte character, an overlong form, a surrogate, a truncated
+    sequence at the end of the string, a value beyond U+10FFFF, a NUL byte and a quote -/
+example : escapeB [99, 233] = [99, 92, 117, 48, 48, 101, 57] := by decide                 -- "c\u00e9"
+example : escapeB [195, 169, 34] = [195, 169, 92, 34] := by decide                        -- é copied, quote escaped
+example : escapeB [192, 128] = [92, 117, 48, 48, 99, 48, 92, 117, 48, 48, 56, 48] := by decide
+example : escapeB [237, 160, 128] = [92, 117, 48, 48, 101, 100, 92, 117, 48, 48, 97, 48, 92, 117, 48, 48, 56, 48] := by decide
+example : escapeB [226, 130] = [92, 117, 48, 48, 101, 50, 92, 117, 48, 48, 56, 50] := by decide
+example : escapeB [244, 144, 128, 128] = [92, 117, 48, 48, 102, 52, 92, 117, 48, 48, 57, 48, 92, 117, 48, 48, 56, 48, 92, 117, 48, 48, 56, 48] := by decide
+example : escapeB [240, 159, 152, 128, 0] = [240, 159, 152, 128, 92, 117, 48, 48, 48, 48] := by decide
+/-- the two predicates are not vacuous: a lone Latin-1 byte is not UTF-8, a bare quote or control byte is not a string body -/
+example : ¬ WfUtf8 [233] := by
+  intro h; cases h with
+  | one hb _ => exact absurd hb (by decide)
+example : ¬ WfUtf8 [237, 160, 128] := by
+  intro h; cases h with
+  | one hb _ => exact absurd hb (by decide)
+  | two h1 _ _ => exact absurd h1 (by decide)
+  | three h1 _ _ => exact absurd h1 (by decide)
+example : ¬ BodyOk [34] := by
+  intro h; cases h with
+  | plain h1 _ _ _ => exact h1 rfl
+example : ¬ BodyOk [9] := by
+  intro h; cases h with
+  | plain _ _ h3 _ => exact absurd h3 (by decide)
+example : Bytes [240, 159, 152, 128, 0] := by intro b hb; simp at hb; omega
+
+/-! ## statement audit (round 4): non-trivial instances of the hypotheses used above -/
+
+/-- `Valid` and `NoEmptyObj` hold for a nested value with hostile strings, an empty array and extreme numbers -/
+example : Valid (.obj (.cons cl!"a\"b" (.arr (.cons (.num cl!"-1.79769e+308") (.cons (.str cl!"x\\y\n") (.cons (.arr .nil) .nil))))
+            (.cons cl!"k" (.obj (.cons cl!"z" (.num cl!"0") .nil)) .nil)))
+        ∧ NoEmptyObj (.obj (.cons cl!"a\"b" (.arr (.cons (.num cl!"-1.79769e+308") (.cons (.str cl!"x\\y\n") (.cons (.arr .nil) .nil))))
+            (.cons cl!"k" (.obj (.cons cl!"z" (.num cl!"0") .nil)) .nil))) := by
+  simp [Valid, ValidM, ValidL, NoEmptyObj, NoEmptyObjM, NoEmptyObjL]; decide
+
+/-- `checkFile` accepts a real (tiny) export text, so `C20_file_sound` is not vacuous at the level of lines -/
+example : checkFile
+    [cl!"{\"COMMENT\": \"Initial model information.\"}",
+     cl!"{\"VAR_index\": 0, \"bounds\": [-1.79769e+308, 5], \"type\": 0, \"is_from_nl\": 1}",
+     cl!"{\"VAR_index\": 0, \"name\": \"x\\\"q\", \"bounds\": [0, 5], \"type\": 1, \"is_from_nl\": 1}"]
+    ⟨1, 0, 0, 0, 0, [⟨1, false, false⟩], [], []⟩ = true := by decide
+/-- … and rejects it when the last record of the variable does not describe what the API received -/
+example : checkFile
+    [cl!"{\"VAR_index\": 0, \"bounds\": [0, 5], \"type\": 1, \"is_from_nl\": 1}",
+     cl!"{\"VAR_index\": 0, \"bounds\": [-1.79769e+308, 5], \"type\": 0, \"is_from_nl\": 1}"]
+    ⟨1, 0, 0, 0, 0, [⟨1, false, false⟩], [], []⟩ = false := by decide
 
 end MpVerif.C20
